@@ -231,6 +231,46 @@ class IndexSpace:
                 env[g.target.id] = OTHER
 
 
+def as_comprehension(fn, arg):
+    """`arg` as a comprehension: itself, or -- when it names a list that one loop of fn fills unconditionally with exactly one
+    `.append(E)` per iteration (possibly next to other accumulators) -- [E for <target> in <iter>]"""
+    if not isinstance(arg, ast.Name):
+        return arg
+    inits = [s_ for s_ in fn.body if isinstance(s_, ast.Assign) and len(s_.targets) == 1 and u(s_.targets[0]) == arg.id]
+    if len(inits) != 1 or not (isinstance(inits[0].value, ast.List) and not inits[0].value.elts):
+        return arg
+    loops = [s_ for s_ in fn.body if isinstance(s_, ast.For) and not s_.orelse and
+             any(isinstance(c, ast.Call) and isinstance(c.func, ast.Attribute) and u(c.func.value) == arg.id for c in ast.walk(s_))]
+    if len(loops) != 1:
+        return arg
+    lp = loops[0]
+    apps = [x for x in lp.body if isinstance(x, ast.Expr) and isinstance(x.value, ast.Call) and isinstance(x.value.func, ast.Attribute)
+            and u(x.value.func.value) == arg.id and x.value.func.attr == "append" and len(x.value.args) == 1]
+    uses = sum(1 for n in ast.walk(lp) if isinstance(n, ast.Name) and n.id == arg.id)
+    if len(apps) != 1 or uses != 1 or any(isinstance(n, (ast.Continue, ast.Break, ast.Return)) for n in ast.walk(lp)):
+        return arg
+    # temporaries of the loop body are written into the element: x = E, and `if c: x = A else: x = B` as a conditional expression
+    from ..norm import _Subst, is_pure
+    import copy as _copy
+    mapping: dict = {}
+    for x in lp.body[: lp.body.index(apps[0])]:
+        if isinstance(x, ast.Assign) and len(x.targets) == 1 and isinstance(x.targets[0], ast.Name) and is_pure(x.value):
+            mapping[x.targets[0].id] = _Subst(dict(mapping)).visit(_copy.deepcopy(x.value))
+        elif isinstance(x, ast.If) and len(x.body) == 1 and len(x.orelse) == 1 and all(
+                isinstance(b_, ast.Assign) and len(b_.targets) == 1 and isinstance(b_.targets[0], ast.Name) and is_pure(b_.value) for b_ in (x.body[0], x.orelse[0])) \
+                and x.body[0].targets[0].id == x.orelse[0].targets[0].id and is_pure(x.test):
+            sub = _Subst(dict(mapping))
+            mapping[x.body[0].targets[0].id] = ast.IfExp(test=sub.visit(_copy.deepcopy(x.test)), body=sub.visit(_copy.deepcopy(x.body[0].value)),
+                                                         orelse=sub.visit(_copy.deepcopy(x.orelse[0].value)))
+    elt = _Subst(dict(mapping)).visit(_copy.deepcopy(apps[0].value.args[0]))
+    from ..canon import _ExprNorm
+    elt = _ExprNorm().visit(elt)            # m[x if c else y] -> m[x] if c else m[y], ..
+    comp = ast.ListComp(elt=elt, generators=[ast.comprehension(target=lp.target, iter=lp.iter, ifs=[], is_async=0)])
+    ast.copy_location(comp, lp)
+    ast.fix_missing_locations(comp)
+    return comp
+
+
 def r3_one_index_space(ctx, rule="C02.R3", rule5="C02.R5", with_metadata: bool = True) -> None:
     prog = ctx.program
     hugr = prog.cls(f"{BASE}.Hugr")
@@ -247,6 +287,8 @@ def r3_one_index_space(ctx, rule="C02.R3", rule5="C02.R5", with_metadata: bool =
     nodes_arg, edges_arg, meta_arg = kwarg(sh, "nodes"), kwarg(sh, "edges"), kwarg(sh, "metadata")
     if nodes_arg is None or edges_arg is None:
         ctx.broken("Hugr._to_serial: SerialHugr(nodes=..., edges=...) keywords not found")
+    nodes_arg, edges_arg = as_comprehension(fn, nodes_arg), as_comprehension(fn, edges_arg)
+    meta_arg = as_comprehension(fn, meta_arg) if meta_arg is not None else None
     isp = IndexSpace(ctx, hugr, nd)
     env: dict[str, str] = {}
     nested = {n.name: n for n in real_body(fn) if isinstance(n, ast.FunctionDef)}
